@@ -17,8 +17,8 @@ structure Agree (cx : Ctx) (env : Ast.Env) : Prop where
   res : ∀ x, env.res (cx.name x) = some x
   vty : env.vty = cx.vty
   fres : ∀ f, env.fres (cx.funcName f) = some f
-  /-- no user function is called like a built-in the exporter invokes by name (reserved names, C15) -/
-  builtin : ∀ i name, RsslVerif.Gen.HlslIntrinsicTables.intrinsicForm i = .invoke name → env.fres name = none
+  /-- no user function is called like a modelled built-in (reserved names, C15) -/
+  builtin : ∀ p ∈ Ast.builtins, env.fres p.1 = none
 
 /-- emitted expression `a` simulates IR expression `e` of type `t` -/
 def Sim (W : World) (env : Ast.Env) (e : Ir.Expr) (a : HlslAst.Expr) (t : Ty) : Prop :=
